@@ -16,6 +16,8 @@ from nvlib import VERIF, log
 # quick-tier multiplier of the stream sizes written in the property modules (they were sized for ~10 s checks;
 # the budget of a quick check is a few minutes)
 QUICK_K = int(os.environ.get("NV_QUICK_SCALE", "3"))
+# thorough-tier multiplier (the sizes in the modules give ~20 s runs; the thorough budget is tens of minutes)
+THOROUGH_K = int(os.environ.get("NV_THOROUGH_SCALE", "8"))
 
 
 class Ctx:
@@ -37,10 +39,12 @@ class Ctx:
         the property is anchored in differs from the tree the models were written for (self.boost), the quick tier
         spends three times more again."""
         if self.tier != "quick":
+            if isinstance(t, (int, float)) and isinstance(q, (int, float)) and t > q:
+                return type(t)(t * THOROUGH_K)
             return t
         if isinstance(q, (int, float)) and isinstance(t, (int, float)) and t > q:
             k = QUICK_K * (3 if self.boost else 1)
-            return type(q)(min(t, k * q))
+            return type(q)(min(t * THOROUGH_K, k * q))
         return q
 
     def tmpdir(self):
